@@ -250,6 +250,9 @@ func (fc *fctx) callContract(c *FuncContract, key string, params []Param, args [
 func (fc *fctx) callWith(c *FuncContract, key string, vars map[string]*Val, sig *types.Signature, pos token.Pos, callee *ssa.Function) []*Val {
 	tr := fc.tr
 	u := tr.u
+	if callee != nil && !c.Trusted {
+		tr.useContract(key)
+	}
 	tr.callArgs = nil
 	for _, v := range vars {
 		if v.Sort == "Int" {
@@ -414,7 +417,15 @@ func (fc *fctx) evalClause(env *Env, cl *Clause, where string) (out string) {
 // ---------------------------------------------------------------------------
 // top level
 
+func (tr *Translator) useContract(key string) {
+	if tr.usedContracts == nil {
+		tr.usedContracts = map[string]bool{}
+	}
+	tr.usedContracts[key] = true
+}
+
 type FuncResult struct {
+	Used     []string // in-package contracts relied upon
 	Key      string
 	Obls     []*Obligation
 	Unsup    string
@@ -449,6 +460,10 @@ func verifyFunc(prog *ssa.Program, spkg *ssa.Package, contracts *Contracts, fn *
 			res.Trusted = append(res.Trusted, k)
 		}
 		sort.Strings(res.Trusted)
+		for k := range tr.usedContracts {
+			res.Used = append(res.Used, k)
+		}
+		sort.Strings(res.Used)
 		if r := recover(); r != nil {
 			switch e := r.(type) {
 			case unsupported:
@@ -480,6 +495,10 @@ func verifyFunc(prog *ssa.Program, spkg *ssa.Package, contracts *Contracts, fn *
 			if st, _ := structOf(pt.Elem()); st != nil {
 				tr.paramHolders = append(tr.paramHolders, paramHolder{v.E(), pt.Elem()})
 			}
+		}
+		if _, ok := p.Type().Underlying().(*types.Interface); ok {
+			// an interface parameter holding a pointer: the object it designates
+			tr.paramHolders = append(tr.paramHolders, paramHolder{ifPart(v, 1), nil})
 		}
 		if i == 0 && fn.Signature.Recv() != nil && tr.autoRecvNonNil {
 			if _, ok := p.Type().Underlying().(*types.Pointer); ok {
@@ -811,6 +830,7 @@ func (tr *Translator) instantiateLaw(env *Env, cl *Clause) string {
 		evalFail("uses: want lemmaFunc.lawName")
 	}
 	key, lawName := cl.Name[:i], cl.Name[i+1:]
+	tr.useContract(key)
 	c := tr.contracts.Funcs[key]
 	fn := allFuncs[key]
 	if c == nil || fn == nil {
